@@ -116,6 +116,28 @@ Theorem C18_oracle_accepts_model_steps : forall st o, heap_extends (heap st) (he
 Proof. exact heap_extends_step. Qed.
 Print Assumptions C18_oracle_accepts_model_steps.
 
+(* re-entrant payloads: a payload whose destructor calls reset() on / assigns nullptr to / moves from / move-assigns an
+   empty pointer onto the very pointer that owns it.  reset() forgets the pointee BEFORE the deleter runs ... *)
+Theorem C18_pointer_empty_while_deleter_runs : forall st i p,
+  is_live (nth_error (pool st) i) = Some p -> slot_is_null (forget st i) i = true.
+Proof. exact pointer_empty_while_deleter_runs. Qed.
+Print Assumptions C18_pointer_empty_while_deleter_runs.
+
+(* ... so whatever list of such actions the destructor performs, the reset is the plain Reset step: every theorem above
+   about histories holds unchanged with re-entrant payloads *)
+Theorem C18_reentrant_reset_is_reset : forall st i acts, reset_reentrant st i acts = q_step st (Reset i).
+Proof. exact reentrant_reset_is_reset. Qed.
+Print Assumptions C18_reentrant_reset_is_reset.
+
+(* in particular the object is destroyed exactly once (q_state_ok: at most once, by its own type, dead iff destroyed,
+   alive iff exactly one owner) and the reset pointer is empty *)
+Theorem C18_reentrant_reset_state_ok : forall n ops i acts,
+  q_state_ok (reset_reentrant (q_run (q_init n) ops) i acts) = true
+  /\ slot_is_null (reset_reentrant (q_run (q_init n) ops) i acts) i
+     = match is_live (nth_error (pool (q_run (q_init n) ops)) i) with Some _ => true | None => slot_is_null (q_run (q_init n) ops) i end.
+Proof. exact reentrant_reset_state_ok. Qed.
+Print Assumptions C18_reentrant_reset_state_ok.
+
 (* ---------------- optional ---------------- *)
 
 (* optional<T> is a value: what is visible through a pool of optionals after any history is what the same
@@ -193,6 +215,10 @@ Print Assumptions C18_optional_finish_frees_everything.
 Module Examples.
 Import Strings.String.
 Local Open Scope string_scope.
+Example C18_ex_reentrant_reset :
+  map (fun o => (otype o, alive o, destroyed_by o)) (heap (reset_reentrant (q_run (q_init 2) [Make 0 1; Make 1 0]) 0 [ReReset; ReMoveFrom; ReAssignNull; ReMoveAssignEmpty]))
+  = [(1, false, [1]); (0, true, [])].
+Proof. reflexivity. Qed.
 Definition h1 := [Make 0 0; Make 1 1; MoveAssign 0 1; VecPush 0; VecGrow; MoveCtor 2 0; Make 0 2; Reset 0; VecTake 1 0; VecClear; Drop 1].
 Example C18_ex_history : map (fun o => (otype o, alive o, destroyed_by o)) (heap (q_run (q_init 3) h1))
   = [(0, false, [0]); (1, false, [1]); (2, false, [2])].
